@@ -94,6 +94,46 @@ Theorem C03_subtree_schedule : forall P m target, 0 <= m <= 30 -> 1 <= P <= 2 ^ 
 Proof. exact up. Qed.
 Print Assumptions C03_subtree_schedule.
 
+(* ---- sc_allreduce ----------------------------------------------------------------------------------------------
+   FULL STATEMENT (not provable as it stands, see below):
+     forall P, 1 <= P <= 2 ^ 30 -> exists n, run n (all_start P) (all_end P) /\ <every schedule ...>   where
+     all_start P = rank r runs `reduce_prog P (maxlevel P) true 0 r`  (the co-simulated program, doall = true).
+   That program lists the actions of the all-to-all window in the order in which the C code POSTS them:
+   Irecv(peer_0); Isend(peer_0); Irecv(peer_1); ... , all completed later by Waitall.  MPI/Sem.v reads every Recv
+   as a blocking receive, and read that way the system is stuck from the start (C03_allreduce_posting_order_blocks,
+   P = 2).  What IS proved: the statement for the program in canonical window order (allreduce_prog_w: in the
+   all-to-all window all sends, then the receives - the `phase` convention of MPI/Prog.v that the allgather
+   programs use), and that allreduce_prog_w is the posting-order program with sends moved in front of receives
+   posted before them (C03_allreduce_window_form; nbeq is the congruence closure of that single swap, which is
+   sound for non-blocking receives).  Missing for the full statement: a semantics in which a posted receive does
+   not block the sends posted after it in the same window, with its own confluence theorem. *)
+Theorem C03_allreduce_every_schedule_partial : forall P, 1 <= P <= 2 ^ 30 ->
+  exists n : nat,
+    run n (all_start_w P) (all_end P) /\
+    forall m s', run m (all_start_w P) s' ->
+      (m <= n)%nat /\ run (n - m) s' (all_end P) /\
+      (final s' -> s' = all_end P /\ m = n) /\
+      (final s' \/ exists r s'', step s' r s'').
+Proof. exact allreduce_w_all_schedules. Qed.
+Print Assumptions C03_allreduce_every_schedule_partial.
+
+(* all_end: EVERY rank has returned the same symbolic value, the one the target of sc_reduce returns, and no
+   message is left in any channel *)
+Theorem C03_allreduce_final_state : forall P,
+  (forall r, 0 <= r < P -> pr (all_end P) r = Ret (sym_reduce_result P)) /\ (forall a b t, ch (all_end P) a b t = []).
+Proof. exact all_end_spec. Qed.
+Print Assumptions C03_allreduce_final_state.
+
+Theorem C03_allreduce_window_form : forall P m me, nbeq (reduce_prog P m true 0 me) (allreduce_prog_w P m me).
+Proof. exact allreduce_prog_window_form. Qed.
+Print Assumptions C03_allreduce_window_form.
+
+Theorem C03_allreduce_posting_order_blocks :
+  let s0 := mkgs (fun r => if (0 <=? r) && (r <? 2) then reduce_prog 2 (maxlevel 2) true 0 r else Ret []) (fun _ _ _ => []) in
+  (forall r s', ~ step s0 r s') /\ ~ final s0.
+Proof. exact allreduce_posting_order_blocks. Qed.
+Print Assumptions C03_allreduce_posting_order_blocks.
+
 Example C03_schedule_instance :
   (exists n f, run n (red_start 13 7) f /\ final f /\ pr f 7 = Ret (sym_reduce_result 13) /\ (forall a b t, ch f a b t = [])) /\
   sym_eval (fun s r : list Z => r ++ s) (fun i => [i]) 5 (sym_reduce_result 13) = Some ([0; 1; 2; 3; 4; 5; 6; 7; 8; 9; 10; 11; 12], []).
